@@ -129,7 +129,7 @@ def codec_tables(repo, recs):
     return pairs, remainders, pre
 
 
-SKIP_CLASSES = {"File", "UncompressedFile", "CompressedFile", "AbstractFile", "ObjectQueue", "Exception", "FileStatistics"}
+SKIP_CLASSES = {"LogContainer", "File", "UncompressedFile", "CompressedFile", "AbstractFile", "ObjectQueue", "Exception", "FileStatistics"}
 
 
 def generate(repo=None, outdir=None):
@@ -164,9 +164,14 @@ def generate(repo=None, outdir=None):
              "#include <Vector/BLF.h>",
              "#include <new>", "#include <typeinfo>", "#include <vector>", "#include <string>", "",
              "namespace refl {", "using namespace Vector::BLF;", ""]
+    declared = set()
+    import glob as _glob
+    for h in _glob.glob(os.path.join(repo, "src/Vector/BLF/*.h")):
+        for m in re.finditer(r"^\s*(?:struct|class)\s+(?:VECTOR_BLF_EXPORT\s+)?([A-Za-z_0-9]+)\b[^;]*$", open(h).read(), re.M):
+            declared.add(m.group(1))
     visited = []
     for name in order:
-        if name in SKIP_CLASSES:
+        if name in SKIP_CLASSES or name not in declared:
             continue
         r = recs[name]
         ok = True
